@@ -549,8 +549,11 @@ pub fn determinism_check<E: Engine>(ctx: &Ctx, eng: &E, n: u64) -> Vec<(u64, Str
                     let b = exec_guarded(eng, &case, seed);
                     let sa: Vec<String> = a.violations.iter().map(|v| v.signature()).collect();
                     let sb: Vec<String> = b.violations.iter().map(|v| v.signature()).collect();
-                    if a.trace_hash != b.trace_hash || sa != sb || a.stats.0 != b.stats.0 {
-                        bad.lock().unwrap().push((seed, format!("hash {:016x} vs {:016x}; violations {sa:?} vs {sb:?}", a.trace_hash, b.trace_hash)));
+                    // counters over text that embeds wall-clock time stamps (the shipped logger's output) are informational
+                    let strip = |s: &Stats| -> BTreeMap<&'static str, u64> { s.0.iter().filter(|(k, _)| !k.starts_with("legacy_")).map(|(k, v)| (*k, *v)).collect() };
+                    if a.trace_hash != b.trace_hash || sa != sb || strip(&a.stats) != strip(&b.stats) {
+                        let diff: Vec<String> = a.stats.0.iter().filter(|(k, v)| b.stats.0.get(*k) != Some(v)).map(|(k, v)| format!("{k}: {v} vs {:?}", b.stats.0.get(k))).chain(b.stats.0.iter().filter(|(k, _)| !a.stats.0.contains_key(*k)).map(|(k, v)| format!("{k}: None vs {v}"))).take(6).collect();
+                        bad.lock().unwrap().push((seed, format!("hash {:016x} vs {:016x}; violations {sa:?} vs {sb:?}; counters {diff:?}", a.trace_hash, b.trace_hash)));
                     }
                 }
             });
